@@ -7,19 +7,14 @@ namespace Verif.C06
 
 /-- the hypotheses on the action graph (what `newPackageAction` / `newAnalyzerAction` /
 the root construction establish): dependencies are earlier in a topological numbering,
-`triggers` is the converse of `deps`, every action but the root has a dependent -/
+`triggers` is the converse of `deps` (as multisets: `deps t` has as many entries as there
+are trigger entries pointing to `t`), every action but the root has a dependent -/
 structure WF (g : Dag) : Prop where
   deps_lt : ∀ a, a ≤ g.n → ∀ d ∈ g.deps a, d < a
-  deps_nodup : ∀ a, a ≤ g.n → (g.deps a).Nodup
-  trig_nodup : ∀ a, a ≤ g.n → (g.trig a).Nodup
   trig_sound : ∀ a, a ≤ g.n → ∀ t ∈ g.trig a, t ≤ g.n ∧ a ∈ g.deps t
   trig_complete : ∀ t, t ≤ g.n → ∀ d ∈ g.deps t, t ∈ g.trig d
+  edges_len : ∀ t, t ≤ g.n → (g.deps t).length = openEdges g (fun _ _ => false) t
   has_trig : ∀ a, a < g.n → g.trig a ≠ []
-
-theorem nodupB_iff (l : List Nat) : nodupB l = true ↔ l.Nodup := by
-  induction l with
-  | nil => simp [nodupB]
-  | cons x xs ih => simp [nodupB, ih, List.nodup_cons]
 
 theorem allUpTo_iff (n : Nat) (p : Nat → Bool) : allUpTo n p = true ↔ ∀ a, a ≤ n → p a = true := by
   simp [allUpTo, List.all_eq_true, List.mem_range]
@@ -30,23 +25,23 @@ theorem allUpTo_iff (n : Nat) (p : Nat → Bool) : allUpTo n p = true ↔ ∀ a,
 theorem wf_of_wfB (g : Dag) (h : g.wfB = true) : WF g := by
   have h' := (allUpTo_iff _ _).mp h
   have hh : ∀ a, a ≤ g.n →
-      (∀ d ∈ g.deps a, d < a) ∧ (g.deps a).Nodup ∧ (g.trig a).Nodup ∧
+      (∀ d ∈ g.deps a, d < a) ∧
       (∀ t ∈ g.trig a, t ≤ g.n ∧ a ∈ g.deps t) ∧ (∀ d ∈ g.deps a, a ∈ g.trig d) ∧
+      ((g.deps a).length = openEdges g (fun _ _ => false) a) ∧
       (a = g.n ∨ g.trig a ≠ []) := by
     intro a ha
     have := h' a ha
-    simp only [Bool.and_eq_true, List.all_eq_true, decide_eq_true_eq, nodupB_iff,
+    simp only [Bool.and_eq_true, List.all_eq_true, decide_eq_true_eq,
       List.contains_iff_mem, Bool.or_eq_true, Bool.not_eq_true', List.isEmpty_eq_false_iff] at this
-    obtain ⟨⟨⟨⟨⟨h1, h2⟩, h3⟩, h4⟩, h5⟩, h6⟩ := this
-    exact ⟨h1, h2, h3, h4, h5, h6⟩
-  refine ⟨?_, ?_, ?_, ?_, ?_, ?_⟩
+    obtain ⟨⟨⟨⟨h1, h2⟩, h3⟩, h4⟩, h5⟩ := this
+    exact ⟨h1, h2, h3, h4, h5⟩
+  refine ⟨?_, ?_, ?_, ?_, ?_⟩
   · intro a ha; exact (hh a ha).1
   · intro a ha; exact (hh a ha).2.1
-  · intro a ha; exact (hh a ha).2.2.1
-  · intro a ha; exact (hh a ha).2.2.2.1
-  · intro t ht d hd; exact (hh t ht).2.2.2.2.1 d hd
+  · intro t ht d hd; exact (hh t ht).2.2.1 d hd
+  · intro t ht; exact (hh t ht).2.2.2.1
   · intro a ha
-    rcases (hh a (by omega)).2.2.2.2.2 with h | h
+    rcases (hh a (by omega)).2.2.2.2 with h | h
     · omega
     · exact h
 
@@ -65,10 +60,6 @@ theorem upd2_apply {α : Type} (f : Nat → Nat → α) (i k j l : Nat) (v : α)
     upd2 f i k v j l = if j = i ∧ l = k then v else f j l := rfl
 
 /-! ### sums over `0 … k-1` -/
-
-def sumUpTo (f : Nat → Nat) : Nat → Nat
-  | 0 => 0
-  | k + 1 => sumUpTo f k + f k
 
 theorem sumUpTo_congr (f f' : Nat → Nat) (k : Nat) (h : ∀ a, a < k → f' a = f a) :
     sumUpTo f' k = sumUpTo f k := by
@@ -93,6 +84,16 @@ theorem sumUpTo_upd (f f' : Nat → Nat) (k a : Nat) (ha : a < k)
       have := h k (fun hh => hak hh.symm)
       omega
 
+/-- changing one summand; the functions only have to agree below `k` -/
+theorem sumUpTo_upd' (f f' : Nat → Nat) (k a : Nat) (ha : a < k)
+    (h : ∀ x, x < k → x ≠ a → f' x = f x) : sumUpTo f' k + f a = sumUpTo f k + f' a := by
+  have h1 : sumUpTo (fun x => if x < k then f' x else f x) k = sumUpTo f' k :=
+    sumUpTo_congr _ _ k (by intro x hx; simp [hx])
+  have h2 := sumUpTo_upd f (fun x => if x < k then f' x else f x) k a ha
+    (by intro x hx; by_cases hxk : x < k <;> simp [hxk, h x, hx])
+  simp only [ha, if_true] at h2
+  omega
+
 theorem sumUpTo_pos (f : Nat → Nat) (k : Nat) (h : 0 < sumUpTo f k) : ∃ a, a < k ∧ 0 < f a := by
   induction k with
   | zero => simp [sumUpTo] at h
@@ -102,6 +103,20 @@ theorem sumUpTo_pos (f : Nat → Nat) (k : Nat) (h : 0 < sumUpTo f k) : ∃ a, a
     · exact ⟨k, by omega, hk⟩
     · obtain ⟨a, ha, hfa⟩ := ih (by omega)
       exact ⟨a, by omega, hfa⟩
+
+theorem sumUpTo_eq_zero (f : Nat → Nat) (k : Nat) (h : sumUpTo f k = 0) : ∀ a, a < k → f a = 0 := by
+  intro a ha
+  false_or_by_contra
+  rename_i hne
+  have hsplit : sumUpTo f k + 0 = sumUpTo (fun x => if x = a then 0 else f x) k + f a := by
+    have := sumUpTo_upd f (fun x => if x = a then 0 else f x) k a ha (by intro x hx; simp [hx])
+    simp at this; omega
+  omega
+
+theorem sumUpTo_zero (k : Nat) : sumUpTo (fun _ => 0) k = 0 := by
+  induction k with
+  | zero => rfl
+  | succ k ih => simp [sumUpTo, ih]
 
 theorem sumUpTo_le (f f' : Nat → Nat) (k : Nat) (h : ∀ a, a < k → f a ≤ f' a) :
     sumUpTo f k ≤ sumUpTo f' k := by
@@ -163,36 +178,6 @@ theorem countP_flip {l : List Nat} (hl : l.Nodup) {a : Nat} (ha : a ∈ l) (p p'
       have := ih hl.2 ha'
       rw [h y hya]
       omega
-
-/-! ### phases -/
-
-/-- `exec` has happened -/
-def Phase.executed : Phase → Bool
-  | .finished => true
-  | .trig _ => true
-  | .sending _ => true
-  | .done => true
-  | _ => false
-
-/-- holds a token of the semaphore -/
-def Phase.holds : Phase → Bool
-  | .running true => true
-  | .finished => true
-  | _ => false
-
-/-- has decremented its trigger number `i` -/
-def Phase.passed : Phase → Nat → Bool
-  | .trig k, i => decide (i < k)
-  | .sending k, i => decide (i ≤ k)
-  | .done, _ => true
-  | _, _ => false
-
-/-- handled by the dispatcher loop itself (`genericHandle(item, root, queue, nil, …)`) -/
-def Phase.inlinePh : Phase → Bool
-  | .running false => true
-  | .trig _ => true
-  | .sending _ => true
-  | _ => false
 
 /-! ### the events of `step`, one characterisation each -/
 
@@ -297,13 +282,13 @@ theorem step_dec {a t : Nat} : step cfg g f s (.dec a t) = some s' ↔
     ((s.pending t = 1 ∧ s.closed = false ∧
       s' = { s with phase := upd (upd s.phase a (.sending k)) t .queued
                     pending := upd s.pending t 0
-                    decAt := upd2 s.decAt a t (some s.now)
+                    decAt := upd2 s.decAt a k (some s.now)
                     zeroAt := upd s.zeroAt t (some s.now)
                     now := s.now + 1 }) ∨
      (s.pending t ≠ 1 ∧
       s' = { s with phase := upd s.phase a (.trig (k + 1))
                     pending := upd s.pending t (s.pending t - 1)
-                    decAt := upd2 s.decAt a t (some s.now)
+                    decAt := upd2 s.decAt a k (some s.now)
                     now := s.now + 1 })) := by
   simp only [step]
   split
